@@ -141,6 +141,7 @@ func usedKeys(addr, dg []byte, hdrLen int) map[string]bool {
 }
 
 // zeroLenFields: the largest number of zero-length field specifiers in any of the named templates of the real cache
+// (keys == nil: in any template)
 func zeroLenFields(c interface{}, keys map[string]bool) int {
 	z := 0
 	count := func(scope, fields int) {
@@ -155,7 +156,7 @@ func zeroLenFields(c interface{}, keys map[string]bool) int {
 				continue
 			}
 			for k, d := range sh.Templates {
-				if !keys[k] {
+				if keys != nil && !keys[k] {
 					continue
 				}
 				a, b := 0, 0
@@ -178,7 +179,7 @@ func zeroLenFields(c interface{}, keys map[string]bool) int {
 				continue
 			}
 			for k, d := range sh.Templates {
-				if !keys[k] {
+				if keys != nil && !keys[k] {
 					continue
 				}
 				a, b := 0, 0
